@@ -33,7 +33,7 @@ Definition oobs_eqb (a b : oobs) : bool :=
 (** every token seen for the first time was issued inside the bracket of its operation *)
 Fixpoint brackets_ok (seen : list token) (ops : list op) (ts : list (Z * Z)) (obs : list oobs) : bool :=
   match ops, ts, obs with
-  | OExec _ now :: ops', (t0, t1) :: ts', XToken t _ :: obs' =>
+  | OExec _ _ now :: ops', (t0, t1) :: ts', XToken t _ :: obs' =>
       (existsb (same_jti t) seen || ((unix t0 <=? unix now)%Z && (unix now <=? unix t1)%Z))
       && brackets_ok (t :: seen) ops' ts' obs'
   | _ :: ops', _ :: ts', _ :: obs' => brackets_ok seen ops' ts' obs'
@@ -55,6 +55,7 @@ Definition RE k x g ch cok uok :=
   {| r_key := k; r_xkid := x; r_genkid := g; r_chain := ch; r_chain_ok := cok; r_usage_ok := uok |}.
 Definition CF kid name ttl cl cch bef aft :=
   {| c_keyid := kid; c_name := name; c_ttl := ttl; c_claims := cl; c_cache := cch; c_before := bef; c_after := aft |}.
+Definition OV ttl cl unk := {| o_ttl := ttl; o_claims := cl; o_unknown := unk |}.
 Definition JW kid alg key use certs :=
   {| j_kid := kid; j_alg := alg; j_key := key; j_use := use; j_certs := certs |}.
 Definition TK alg kid typ key cl :=
